@@ -347,6 +347,11 @@ func (l *queryLog) readNextEntry(
 	e = &logEntry{}
 	l.decodeLogEntry(ctx, e, line)
 
+	// Set the timestamp before any of the checks below, since it must be
+	// reported for the hidden records as well.  Otherwise, a scan that stops at
+	// such a record would report that there are no older records.
+	ts = e.Time.UnixNano()
+
 	if l.isIgnored(e.QHost) {
 		return nil, ts, nil
 	}
@@ -369,7 +374,6 @@ func (l *queryLog) readNextEntry(
 		return nil, ts, nil
 	}
 
-	ts = e.Time.UnixNano()
 	if !params.match(e) {
 		return nil, ts, nil
 	}
